@@ -126,3 +126,66 @@ class FromStr:
 
 def parse_args_eval(it, args, kwargs):
     return it.call1("formatstring", "parse_args", tuple(args), dict(kwargs))
+
+
+# ---- a result seen through its own views --------------------------------------------------------------------------
+_SGR_OR_CHAR = _re.compile("\x1b\\[([0-9;]*)m|(.)", _re.S)
+
+
+def displayed(stream):
+    """[(character, graphic state)] a terminal shows for `stream` (SGR sequences and literal characters only), and the final state."""
+    state = sgr.DEFAULT
+    out = []
+    for m in _SGR_OR_CHAR.finditer(stream):
+        if m.group(2) is not None:
+            out.append((m.group(2), state))
+        else:
+            state = sgr.apply_params(state, [int(x) if x else 0 for x in m.group(1).split(";")] if m.group(1) else [])
+    return out, state
+
+
+def view_problem(it, v, want_width=None):
+    """None, or what is wrong with the views a FmtStr model value gives of itself: .s, len(), str() (what a terminal shows for it)
+    and optionally .width must all agree with its runs.  A result whose memoised views were pre-seeded wrongly is caught here."""
+    rs = runs_of(v)
+    text = "".join(str(t) for t, _ in rs)
+
+    def get(what, thunk):
+        try:
+            return ("ok", thunk())
+        except FoldedRaise as e:
+            return ("raise", e.name)
+        except Unknown as e:
+            raise AnalysisError("%s of a result is outside the evaluated subset: %s" % (what, e))
+
+    s_view = get(".s", lambda: it.folder.obj_attr(v, "s"))
+    if s_view != ("ok", text):
+        return "its runs spell %r but its .s %s" % (text, "is %r" % (s_view[1],) if s_view[0] == "ok" else "raises " + s_view[1])
+    n_view = it.callm(v, "__len__")
+    if n_view[0] == "opaque":
+        raise AnalysisError("len() of a result is outside the evaluated subset: %s" % (n_view[1],))
+    if n_view != ("ok", len(text)):
+        return "its runs spell %r (%d characters) but its len() %s" % (text, len(text), "is %r" % (n_view[1],) if n_view[0] == "ok" else "raises %s" % (n_view[1],))
+    st_view = it.callm(v, "__str__")
+    if st_view[0] == "opaque":
+        raise AnalysisError("str() of a result is outside the evaluated subset: %s" % (st_view[1],))
+    if st_view[0] != "ok" or not isinstance(st_view[1], str):
+        return "str() of it %s" % ("raises %s" % (st_view[1],) if st_view[0] != "ok" else "is not a str")
+    if "\x1b" not in text:
+        try:
+            shown, final = displayed(st_view[1])
+        except sgr.Unsupported as e:
+            return "str() of it emits SGR code %s" % e
+        want = []
+        for t, a in rs:
+            stt = sgr.expected_state(a.get("fg"), a.get("bg"), {k: x for k, x in a.items() if k not in ("fg", "bg")})
+            want.extend((ch, stt) for ch in str(t))
+        if shown != want:
+            return "str() of it displays %s, its runs are %s" % ([(c, s_[0], s_[1], sorted(s_[2])) for c, s_ in shown], [(c, s_[0], s_[1], sorted(s_[2])) for c, s_ in want])
+        if final != sgr.DEFAULT:
+            return "str() of it leaves the terminal in a non-default graphic state"
+    if want_width is not None:
+        w_view = get(".width", lambda: it.folder.obj_attr(v, "width"))
+        if w_view != ("ok", want_width):
+            return "its characters occupy %d column(s) but its .width %s" % (want_width, "is %r" % (w_view[1],) if w_view[0] == "ok" else "raises " + w_view[1])
+    return None
